@@ -234,6 +234,10 @@ class Gen:
                 ft = r.choice([["null", me], {"type": "array", "items": me}, {"type": "map", "values": me}])
             else:
                 ft = self.schema(ctx, nsx, depth - 1)
+                # optional fields: a nullable union around a non-union type, null first or last
+                if self.opt.get("optional_fields", True) and not isinstance(ft, list) and r.random() < 0.15 \
+                        and ft != "null" and not (isinstance(ft, dict) and ft.get("type") == "null"):
+                    ft = r.choice([[ft, "null"], ["null", ft]])
             f = {"name": fn, "type": ft}
             if self.opt["defaults"] and r.random() < 0.35:
                 ok, dv = self.default_for(ft, ctx, nsx)
